@@ -38,8 +38,12 @@ def ref_rule(model, ctx, rule, ref, refs, fact, why, construct=None, inline=Fals
     rel, qual = ref.split("::")
     fn, paths = refsem.method_paths(model, ref, inline=inline)
     refs = [refs] if isinstance(refs, str) else list(refs)
+    # closures defined inside the function are outside its path summary: a difference of summaries may then be a mere
+    # restructuring of the closures
+    nested = any(isinstance(n, (ast.FunctionDef, ast.AsyncFunctionDef, ast.Lambda)) and n is not fn for n in ast.walk(fn)) or \
+        any(isinstance(n, (ast.FunctionDef, ast.AsyncFunctionDef, ast.Lambda)) for r in refs if isinstance(r, str) for n in ast.walk(ast.parse(r)))
     return refsem.compare(ctx, rule, construct or qual, f"{rel}:{fn.lineno}", qual, paths, refs, fact=fact, why=why, raises=raises,
-                          rewrite=rewrite)
+                          rewrite=rewrite, undecided="nested function definitions" if nested else None)
 
 
 # ------------------------------------------------------------------------------------------------ reference files
